@@ -31,6 +31,17 @@ for sid in ids:
     verdict = 'caught' if (rc == 1 and viol) else ('HARNESS-ERROR' if rc == 2 else 'not caught')
     rows.append((sid, prop, verdict, '; '.join(sigs[:3]), round(time.time() - t0)))
     print(rows[-1], flush=True)
+# a partial run (id prefixes given) replaces only its own rows in the existing table
+if len(sys.argv) > 1 and os.path.exists('/verif/seeded/REGRESSION.md'):
+    mine = {r[0] for r in rows}
+    for line in open('/verif/seeded/REGRESSION.md'):
+        c = [x.strip() for x in line.strip().strip('|').split(' | ')]
+        if len(c) == 5 and c[0] not in ('id', '---') and c[0] not in mine and not c[0].startswith('-'):
+            try:
+                rows.append((c[0], c[1], c[2], c[3], int(c[4])))
+            except ValueError:
+                pass
+    rows.sort(key=lambda r: r[0])
 with open('/verif/seeded/REGRESSION.md', 'w') as f:
     f.write('# Seeded changes vs. the current checks\n\nEach change applied to /repo, the quick check of its property run (C03-s8: the Miri scenario-D part of the thorough tier), change undone.\n\n| id | property | verdict | signatures | wall s |\n|---|---|---|---|---|\n')
     for r in rows:
